@@ -1,10 +1,25 @@
 """C05 — clock-domain crossings never corrupt, drop, duplicate or reorder data (DESIGN.md §4 C05).
 
-Two base clocks `a` and `b`; every step one of {a}, {b}, {a,b} rises (all interleavings, simultaneous edges included).
-Every `MultiReg` of the elaborated design is lowered by a *tagging* lowerer to the unmodified `MultiRegImpl`; whenever the
-input of a tagged synchroniser differs before/after an instant in which its destination clock rises together with the other
-clock, its first flop takes every per-bit mixture of the old and the new value (one successor per mixture).
-Environment processes are registers of their own domain: the producer only moves on `a` ticks, the consumer on `b` ticks.
+Two base clocks `a` and `b`; every step one of {a}, {b}, {a,b} rises (all interleavings, simultaneous edges included; unbounded
+drift for the FIFO crossings, drift <= R for the time-out based BusSynchronizer).  Environment processes are registers of their
+own domain: the producer / master only moves on `a` ticks, the consumer / slave on `b` ticks.
+
+Sampling faults.  Every `MultiReg` of the elaborated design is lowered by a *tagging* lowerer (Harness.special_overrides) to the
+unmodified `MultiRegImpl`; the lowerer only remembers (input expression, first register, destination domain).  The input expression
+is compiled with the fast stepper's own expression compiler and evaluated on the valuation before and after the edge.  Whenever it
+differs in an instant in which both base clocks rise, the first flop takes every per-bit mixture of old and new (2^d successors,
+cross product over all synchronisers that are hit); the forced values travel in the trace as `(choice, {signal index: value})` and
+are applied in the same way when a counterexample is re-played through LiteX's own Evaluator.
+Limits (kept simple on purpose): unsigned synchronisers only; a change is attributed to the other clock whenever both clocks rise
+(over-approximation); environment inputs may reach a synchroniser only as its plain input signal (BusSynchronizer width 1);
+faults are injected at MultiReg first stages only — that this covers every crossing is *checked* per configuration by a structural
+pass over the lowered fragment (rules struct.first_flop_exposed / struct.unsynchronised_crossing), the one exempted crossing, the
+words of a dual-clock memory, is attacked by the 'emitted+collide' variant (a READ_FIRST data register that reads the word being
+written by the other clock in the same instant gets the complement of what the simulator latched).
+
+Memory variants.  'sim': the fragment exactly as LiteX simulates it (transparent address register).  'emitted': every port of a
+memory whose ports use different clocks is switched to READ_FIRST before elaboration, which is what litex/gen/fhdl/memory.py does
+when it prints the memory, so that what is explored is what is synthesised.
 """
 import fsmc  # noqa  (first: sys.path + tracer shim)
 import itertools
@@ -26,15 +41,24 @@ RULE = ("BFS to closure of (real two-clock FHDL x domain-registered producer/con
 ASSUMPTIONS = [
     "2-state zero-delay FHDL semantics of litex.gen.sim; simultaneous edges: all rising domains read pre-edge values (LiteX's rule)",
     "metastability = a first synchroniser flop sampling a changing input latches old or new per bit and is decided one destination period later; "
-    "longer metastability, clock glitches and the real AsyncResetSynchronizer are not modelled",
-    "sampling faults are applied to tagged MultiReg first stages only (every crossing of the designs under test goes through a MultiReg; "
-    "the dual-clock memory is a second crossing: see the 'emitted+collide' variants)",
+    "longer metastability, glitches on combinational synchroniser inputs, clock glitches and the real AsyncResetSynchronizer are not modelled",
+    "sampling faults are injected at tagged MultiReg first stages; that no other register samples the other clock's state (except words of a "
+    "dual-clock memory, attacked by the emitted+collide variant) and that only the second stage reads a first flop is checked structurally (struct.* rules)",
     "a changing synchroniser input is attributed to the other clock whenever both base clocks rise in the instant (over-approximation)",
-    "producer is a register process of domain a (holds valid + token until accepted, adversarial idle garbage), consumer of domain b (ready free per b tick)",
-    "token ids mod M (M = 2*capacity+2), first/last/param derived from the id (data independence of FIFO storage)",
+    "producer is a register process of domain a (holds valid + token until accepted, all-ones idle garbage; all-zeros too in one thorough variant), "
+    "consumer a register process of domain b (ready free per b tick)",
+    "token ids mod M (M = 2*capacity+2), first/last/param derived from the id; data independence is checked syntactically (no payload line reaches a condition, Mux select or Array key)",
+    "occupancy bound: depth, +2 for the buffered variants (DESIGN C05); measured maximum reported per configuration",
     "BusSynchronizer: relative drift bounded by R (at most R edges of one clock between two edges of the other), time-out T = 8*(R+1) > one round trip; "
-    "input restricted to even-parity code words so that any torn word is a non-code word",
+    "input restricted to even-parity code words so that any torn word is a non-code word; o may only change to a value i has held since o last changed",
+    "with_common_rst: a reset pulse on rst_a or rst_b starts asynchronously and is held until each clock has risen once (both pointer sets cleared) and then twice "
+    "more (reset-less synchroniser flops flushed) - what the real two-flop AsyncResetSynchronizer gives for a pulse covering one edge of each clock; the simulator's "
+    "combinational stand-in does not stretch the pulse.  Producer and consumer are reset with it; elements in flight are dropped by design",
+    "AXILiteClockDomainCrossing: one outstanding operation, one address, two alternating data marks, slave accepts what it can hold and answers one b tick later, all-ones idle garbage on all five channels",
+    "stream.Monitor: a reset/latch line is pulsed again only after the previous pulse was delivered (PulseSynchronizer's premise); only the pulse path is judged, "
+    "the multi-bit count crossing through a plain MultiReg is outside the property",
     "weak fairness of both clocks for liveness",
+    "sensitivity runs (cover key sensitivity_not_a_verdict) violate a premise on purpose and are never verdicts",
     "parameters limited to the listed configurations; tracer shim (names only)",
 ]
 
@@ -95,7 +119,66 @@ def _direct_deps(stmts, ctx, out):
             raise MachineryError(f"crossing lint: unknown statement {type(st)}")
 
 
-def crossing_lint(D, tagged, base_of, input_domain, storage):
+def _expr_selectors(e, out):
+    """signals that *select* inside an expression: Mux conditions and Array keys"""
+    from migen.fhdl.structure import _Operator, _Slice, _ArrayProxy
+    from migen.fhdl.specials import _MemoryLocation
+    if isinstance(e, _Operator):
+        if e.op == "m":
+            out |= list_signals(e.operands[0])
+        for o in e.operands:
+            _expr_selectors(o, out)
+    elif isinstance(e, _Slice):
+        _expr_selectors(e.value, out)
+    elif isinstance(e, Cat):
+        for o in e.l:
+            _expr_selectors(o, out)
+    elif isinstance(e, Replicate):
+        _expr_selectors(e.v, out)
+    elif isinstance(e, _ArrayProxy):
+        out |= list_signals(e.key)
+        _expr_selectors(e.key, out)
+        for c in e.choices:
+            _expr_selectors(c, out)
+    elif isinstance(e, _MemoryLocation):
+        out |= list_signals(e.index)
+
+
+def control_signals(f):
+    """every signal that can influence *which* assignment happens or *where* data goes (If/Case conditions, Mux selects, Array
+    keys), closed over combinational logic.  Used to check the data-independence assumption behind token ids."""
+    sel = set()
+    def walk(stmts):
+        for st in stmts:
+            if isinstance(st, _Assign):
+                _expr_selectors(st.l, sel)
+                _expr_selectors(st.r, sel)
+            elif isinstance(st, If):
+                sel.update(list_signals(st.cond))
+                walk(st.t)
+                walk(st.f)
+            elif isinstance(st, Case):
+                sel.update(list_signals(st.test))
+                for body in st.cases.values():
+                    walk(body)
+            elif isinstance(st, (list, tuple)):
+                walk(st)
+    walk(f.comb)
+    for st in f.sync.values():
+        walk(st)
+    comb = {}
+    _direct_deps(f.comb, set(), comb)
+    seen, todo = set(), list(sel)
+    while todo:
+        x = todo.pop()
+        if x in seen:
+            continue
+        seen.add(x)
+        todo += list(comb.get(x, ()))
+    return seen
+
+
+def crossing_lint(D, tagged, base_of, input_domain, storage, sampled_inputs=()):
     """Side-condition of the fault model, *checked* instead of assumed: sampling faults are injected at the first flop of every
     MultiReg, which is only sound if (1) nothing but the next synchroniser stage reads a first flop and (2) no other register
     samples state (or declared inputs) of the other clock.  Exempt: words of a dual-clock memory read by the other port (a data
@@ -130,6 +213,11 @@ def crossing_lint(D, tagged, base_of, input_domain, storage):
     first = {impl.regs[0]: impl for impl in tagged}
     for impl in tagged:
         r0 = impl.regs[0]
+        # environment inputs reach a synchroniser only as its plain input signal (then the harness tells the fault model their next
+        # value, see next_inputs); through logic they would change unseen by the fault model
+        for x in leaves(list_signals(impl.i)):
+            if x in input_domain and not (x in sampled_inputs and impl.i is x):
+                raise MachineryError(f"synchroniser into {impl.odomain} samples environment input {nm(x)} in a way the fault model does not follow")
         allowed = impl.regs[1] if len(impl.regs) > 1 else None
         readers = [t for m in (comb, sync) for t, rd in m.items() if r0 in rd and t is not allowed and t is not r0]
         if readers:
@@ -234,7 +322,11 @@ class CdcHarness(Harness):
         storage = set()
         for arr in self.D.sim.evaluator.replaced_memories.values():
             storage |= set(arr)
-        return crossing_lint(self.D, self.tagged, self.base_of, self.input_domains(), storage)
+        return crossing_lint(self.D, self.tagged, self.base_of, self.input_domains(), storage, self.sampled_inputs())
+
+    def sampled_inputs(self):
+        """environment inputs that are the plain input of a synchroniser and are reported by next_inputs"""
+        return ()
 
     # -- schedule -------------------------------------------------------------------------------------------
     def tickset(self, ch):
@@ -353,6 +445,12 @@ class CdcStreamHarness(CdcHarness):
             rep |= 1 << k
             k += idb
         self.alphabet = [(i * rep) & ((1 << S.paybits) - 1) for i in range(self.M)]
+        # data independence (token ids instead of all payload values) is checked, not assumed: no payload / param / first / last
+        # line of the sink may reach an If/Case condition, a Mux select or an Array key of the lowered fragment
+        ctl = control_signals(D.f)
+        leak = [x for x in _driven(S.ep, True)[1:] if x in ctl]
+        if leak:
+            raise MachineryError(f"{self.name}: control depends on payload lines {[x.backtrace[-1][0] for x in leak]}: ids are not enough")
 
     def input_domains(self):
         d = {x: "a" for x in _driven(self.sink.ep, True)}
@@ -473,6 +571,9 @@ class BusSyncHarness(CdcHarness):
 
     def input_domains(self):
         return {self.dut.i: "a"}
+
+    def sampled_inputs(self):
+        return (self.dut.i,)
 
     def env_init(self):
         return (0, 0, 0, 1)
@@ -1041,11 +1142,52 @@ def _tuple_deep(x):
     return tuple(_tuple_deep(y) for y in x) if isinstance(x, (list, tuple)) else x
 
 
+def _validate_trace(mk, steps):
+    """A recorded trace is only meaningful on the tree it is replayed on if every step is a choice the environment offers in
+    that state and every forced first-flop value is one of the sampling resolutions the fault model allows in that instant
+    (replay_stock applies forced values by signal index without asking the harness).  -> None or a reason."""
+    from fsmc.design import Design
+    H = mk()
+    D = Design(H.build(), clocks=H.clocks, special_overrides=H.special_overrides)
+    H.bind(D)
+    fs = D.fs
+    d, env = D.reset_state(), H.env_init()
+    for k, step in enumerate(steps):
+        ch, forced = (step if isinstance(step, tuple) and len(step) == 2 and isinstance(step[1], dict) else (step, None))
+        if ch not in H.choices(env):
+            return f"step {k}: choice {ch} is not offered by the environment in this state"
+        v = D.load(d)
+        H.drive(v, env, ch)
+        fs.settle()
+        env2, err, flags = H.observe(v, env, ch)
+        if err is not None:
+            return None if k == len(steps) - 1 else f"step {k}: violation before the end of the trace"
+        cds = H.ticks(env, ch)
+        vpre = list(v)
+        fs.tick(cds)
+        alts = [a or {} for a in (H.faults(vpre, v, env, ch, cds) or [None])]
+        if (forced or {}) not in alts:
+            return f"step {k}: forced values {forced} are not a possible sampling resolution on this tree (possible: {alts[:4]}...)"
+        if forced:
+            for i, x in forced.items():
+                v[i] = x
+            fs.settle()
+        if H.post is not None:
+            env2, err = H.post(v, env2, ch)
+            if err is not None:
+                return None if k == len(steps) - 1 else f"step {k}: violation before the end of the trace"
+        d, env = D.state(), env2
+    return None
+
+
 def _replay(mk, rule, trace, cycle):
     H = mk()
     tr = [_decode_step(c) for c in trace]
     cyc = [_decode_step(c) for c in cycle] if cycle else None
     q = [q for q in H.live_queries if q[0] == rule][0] if cyc else None
+    why = _validate_trace(mk, tr + (cyc * 2 if cyc else []))
+    if why is not None:
+        return dict(reproduced=False, path="trace validation", err=None, cycles=len(tr), invalid=why)
     return replay_stock(mk, tr, cyc, q)
 
 
@@ -1055,6 +1197,9 @@ def run_config(cfg, seed, tier):
     H = mk()
     X = Explorer(H, seed=seed, max_viol_rules=2)
     structural = H.lint()
+    if structural:
+        # the fault model's side-condition is broken: the dynamic exploration is only run for additional evidence, bounded
+        H.cap = min(H.cap, 50_000)
     out = X.run().as_dict()
     out["cover"]["crossing_discipline_findings"] = len(structural)
     for v in out["violations"]:
@@ -1086,7 +1231,8 @@ def replay(rec):
         found = [m for r, m in H.lint() if r == rec["rule"]]
         return dict(cfg=rec["cfg"], rule=rec["rule"], reproduced=bool(found), findings=found, path="elaboration + crossing lint")
     rp = _replay(mk, rec["rule"], rec["trace"], rec.get("cycle"))
-    return dict(cfg=rec["cfg"], rule=rec["rule"], reproduced=rp["reproduced"], err=rp["err"], path=rp["path"], cycles=rp["cycles"])
+    return dict(cfg=rec["cfg"], rule=rec["rule"], reproduced=rp["reproduced"], err=rp["err"], path=rp["path"], cycles=rp["cycles"],
+                invalid=rp.get("invalid"))
 
 
 def extra_coverage(results):
